@@ -346,12 +346,18 @@ def execute(case):
 # planning
 # --------------------------------------------------------------------------
 def _boundary_instant(rng, lo=2016, hi=2043):
+    if hi >= 2099 and rng.random() < 0.3:
+        # the Gregorian exception: 2100 is not a leap year (8-year leap gap 2096-2104)
+        t = workload.ref_time(rng, 2096, 2099)
+        if rng.random() < 0.3:
+            t = t.replace(month=rng.choice([2, 3]), day=rng.choice([1, 28]))
+        return t
     return workload.ref_time(rng, lo, hi)
 
 
-def _clock_instant(rng, h, mi):
+def _clock_instant(rng, h, mi, lo=2016, hi=2043):
     """an instant placed relative to the requested minute, on a boundary-biased date"""
-    d = workload.ref_time(rng, 2016, 2043).replace(hour=0, minute=0, second=0, microsecond=0)
+    d = _boundary_instant(rng, lo, hi).replace(hour=0, minute=0, second=0, microsecond=0)
     req = timedelta(hours=h, minutes=mi)
     r = rng.random()
     if r < 0.2:
@@ -363,7 +369,7 @@ def _clock_instant(rng, h, mi):
     else:
         off = timedelta(seconds=rng.randint(0, 86399))
     t = d + off
-    if t < datetime(2016, 1, 1):
+    if t < datetime(1971, 1, 1):
         t = d
     return t
 
@@ -400,7 +406,11 @@ def _military_excluded(form, ts):
 
 
 def _session(prop, rng, n_req):
-    start = _boundary_instant(rng, 1971 if prop == "C05" else 2016, 2099 if prop == "C05" else 2043)
+    # most sessions live in the 28-year cycle the properties name; every fifth one anywhere in
+    # 1971-2099 (incl. the 2096-2100 leap gap)
+    wide = prop == "C05" or rng.random() < 0.2
+    lo, hi = (1971, 2099) if wide else (2016, 2043)
+    start = _boundary_instant(rng, lo, hi)
     n_clients = rng.randint(1, 4)
     clients = [0] + [rng.choice([0, 3, -3, 86400, -86400 * 40, 86400 * 366, 59, -1])
                      for _ in range(n_clients - 1)]
@@ -418,11 +428,10 @@ def _session(prop, rng, n_req):
         # --- a clock event before (most) requests
         r = rng.random()
         if prop == "C06":
-            nt = _clock_instant(rng, f["p"][0], f["p"][1])
+            nt = _clock_instant(rng, f["p"][0], f["p"][1], lo, hi)
             evs.append({"ev": "set", "to": fmt_ts(nt), "boundary": True})
             t = nt
         elif r < 0.35:
-            lo, hi = (1971, 2099) if prop == "C05" else (2016, 2043)
             nt = _boundary_instant(rng, lo, hi)
             evs.append({"ev": "set", "to": fmt_ts(nt), "boundary": True})
             t = nt
